@@ -27,8 +27,11 @@ Inductive rop :=
    CReload: a request history through cmd/chihaya's Run with reload points.
    CAfterStop: Stop(everything) with a gated post-hook; o_panic: the hook's
      store call panicked ("attempted to interact with stopped ... store"). *)
+(* a group member: a leaf calling Done with these arguments, or a nested group of leaves *)
+Inductive gmem := GLeaf (r : list (option Z)) | GInner (l : list (list (option Z))).
+
 Inductive case16 :=
-| CGroup (ms : list (list (option Z))) (order : list Z) (o_done : bool) (o_res : list (option Z))
+| CGroup (ms : list gmem) (order : list Z) (o_done : bool) (o_res : list (option Z))
 | CGated (fe : Z) (scrape : bool) (mode : Z) (o_b0 o_b1 o_after o_hookdone : bool)
 | CRace (fe procs : Z) (o_done : bool) (o_errs : Z) (o_open o_answered : bool)
 | CLeak (fe nreq : Z) (o_done : bool) (o_left : Z)
@@ -51,12 +54,18 @@ Fixpoint raw_eqb (a b : raw) : bool :=
 Definition is_some (o : option Z) : bool := match o with Some _ => true | None => false end.
 Definition all_proper (ms : list raw) : bool := forallb (forallb is_some) ms.
 
-Definition chk_group (ms : list raw) (order : list Z) (o_done : bool) (o_res : raw) : verdict :=
-  match group_run ms (map Z.to_nat order) with
+(* a nested group is a member that completes with its own group_result *)
+Definition flat (m : gmem) : raw := match m with GLeaf r => r | GInner l => group_result l end.
+Definition leaves (m : gmem) : list raw := match m with GLeaf r => [r] | GInner l => l end.
+Definition has_inner (ms : list gmem) : bool := existsb (fun m => match m with GInner _ => true | _ => false end) ms.
+
+Definition chk_group (ms : list gmem) (order : list Z) (o_done : bool) (o_res : raw) : verdict :=
+  match group_run (map flat ms) (map Z.to_nat order) with
   | Some r =>
-    (1, if negb o_done then 5
+    ((if has_inner ms then 3 else 1),
+        if negb o_done then 5
         else if raw_eqb r o_res then 0
-        else if all_proper ms then 4 else 101)
+        else if all_proper (concat (map leaves ms)) then 4 else 101)
   | None => (2, if o_done then 5 else 0)
   end.
 
@@ -114,8 +123,8 @@ Definition chk_race (fe : Z) (o_done : bool) (o_errs : Z) (o_open o_answered : b
   (20 + fe,
    if negb (Bool.eqb o_done md) then 6
    else if negb (o_errs =? 0) then 10
-   else if o_answered then 9
    else if negb (Bool.eqb o_open mo) then 2
+   else if o_answered then 9
    else 0).
 
 (* nreq requests served completely, then Stop *)
@@ -219,7 +228,7 @@ Inductive expl :=
 
 Definition explain16 (c : case16) : expl :=
   match c with
-  | CGroup ms order _ _ => XGroup (group_run ms (map Z.to_nat order))
+  | CGroup ms order _ _ => XGroup (group_run (map flat ms) (map Z.to_nat order))
   | CGated fe _ mode _ _ _ _ => XGated (model_gated true fe mode) (model_gated false fe mode)
   | CRace fe _ _ _ _ _ => XRace (model_race true fe) (model_race false fe)
   | CLeak fe n _ _ => XLeak (model_leak true fe (Z.to_nat n))
